@@ -49,7 +49,12 @@ def render_module(root: Path, tasks: list[dict], version: int) -> str:
             if v == "updown":
                 return f"ROOT / 'sub' / '..' / 'f{p}.txt'"
             return f"ROOT / 'f{p}.txt'"
-        args += [f"p{j}: Annotated[Path, Product] = {_pp(p)}" for j, p in enumerate(t["prods"])]
+        def _pa(j, p):
+            if sp.get(str(p)) == "node_updown":      # an explicit node with an absolute, unnormalised path
+                return f"p{j}: Annotated[Path, pytask.PathNode(path=ROOT / 'sub' / '..' / 'f{p}.txt'), Product]"
+            return f"p{j}: Annotated[Path, Product] = {_pp(p)}"
+        pargs = [_pa(j, p) for j, p in enumerate(t["prods"])]
+        args = [a for a in pargs if "=" not in a.split("]")[-1]] + args + [a for a in pargs if "=" in a.split("]")[-1]]
         lines += decos
         lines.append(f"def task_t{t['id']}_({', '.join(args)}):")
         dl = "[" + ", ".join(f"d{j}" for j in range(len(t["deps"]))) + "]"
